@@ -217,6 +217,15 @@ def normalize(raw):
         others = [x for x in missing if x not in fn_map.values() and x.rsplit("::", 1)[-1] == last and _module(x) == _module(m) and _ep(x) == _ep(m)]
         if len(cands) == 1 and len(others) == 1:
             fn_map[cands[0]] = m
+            continue
+        # ... or a free function of the module became an associated function of a type of that module (or the
+        # reverse) and its signature was touched on the way: the only function of that name in the module, before and after
+        if not cands:
+            cands = [n for n in new if n not in fn_map and n.rsplit("::", 1)[-1] == last and _module(n) == _module(m) and (_ep(m) == _module(m)) != (_ep(n) == _module(n))]
+            others = [x for x in missing if x not in fn_map.values() and x.rsplit("::", 1)[-1] == last and _module(x) == _module(m)]
+            now = [n for n in cur["fns"] if n.rsplit("::", 1)[-1] == last and _module(n) == _module(m) and not n.startswith("<")]
+            if len(cands) == 1 and len(others) == 1 and len(now) == 1:
+                fn_map[cands[0]] = m
     # several functions of one parent renamed at once with unchanged arity: pair them by the words their names share
     # (end_contains -> is_within_end, start_contains -> is_within_start)
     left = [m for m in missing if m not in fn_map.values()]
